@@ -1,3 +1,5 @@
+import os
+
 from trashcli.put.my_logger import LoggerBackend
 
 from trashcli.put.context import Context
@@ -58,6 +60,12 @@ class Trasher(SingleTrasher):
                     self.reporter.unable_to_trash_file_non_existent(path),
                     context.log_data)
                 return TrashResult.Failure
+
+        if os.path.ismount(path):
+            self.logger.log_put(
+                self.reporter.unable_to_trash_mount_point(path),
+                context.log_data)
+            return TrashResult.Failure
 
         if context.mode.should_we_ask_to_the_user(self.fs.is_accessible(path)):
             reply = self.user.ask_user_about_deleting_file(context.program_name,
